@@ -42,7 +42,14 @@ def trial(prog, backend, pre, f, args, ctx, rf, use_map, use_model, root_dir):
         if use_map:
             progs.REC.calls.clear()
             try:
-                d = wa.fn(f, ctx).map_over_range(a=list(args))
+                # the range is any iterable: a list, a tuple, a generator or an iterator (consumed only once)
+                shape = len(args) % 4
+                rng_arg = [list(args), tuple(args), (a for a in list(args)), iter(list(args))][shape]
+                d = wa.fn(f, ctx).map_over_range(a=rng_arg)
+                if sorted(d) != sorted(set(args)):
+                    res["fails"].append(dict(clause="map-over-range-covers-the-range", range_kind=["list", "tuple", "generator", "iterator"][shape],
+                                             keys=sorted(d), expected=sorted(set(args))))
+                    d = {a: d.get(a) for a in args}
                 bouts = [progs.show_exc(d[a]) if isinstance(d[a], Exception) else progs.show_outcome_value(d[a]) for a in args]
                 braised = None
             except Exception as e:
